@@ -40,6 +40,7 @@ def anomalies(case, run):
     ids, T, rate = case["ids"], case["timeout"], case["rate"]
     n = G.expected_count(case)
     cmps = run["cmps"]
+    known = G.f08_sig(case)      # locality failures of a script inside a known-finding region carry its signature
     if run["outcome"] in ("stuck", "abort-exit"):
         out.append(("C13", "run-blocks-forever", "run did not finish: %s after %d comparisons" % (run["outcome"], len(cmps))))
     if [c[0] for c in cmps] != ids[:n]:
@@ -50,7 +51,7 @@ def anomalies(case, run):
             out.append(("C08", "foreign-replay-attached", "comparison labelled r%s carries the replay of r%s" % (c[0], c[3])))
         exp = G.expected_status(b, True, T if not b.startswith("slow") else 10**6)
         if exp is not None and c[1] != exp:
-            out.append(("C08", "wrong-status", "r%s (%s): status %s, expected %s [%s]" % (ids[k], b, c[1], exp, c[2])))
+            out.append(("C08", known or "wrong-status", "r%s (%s): status %s, expected %s [%s]" % (ids[k], b, c[1], exp, c[2])))
         if k < len(run["walls"]) and run["walls"][k] > T + 3:
             out.append(("C13", "wait-too-long", "comparison of r%s (%s) took %.1f s, timeout %d s" % (ids[k], b, run["walls"][k], T)))
     if run.get("inproc") is not None and run["inproc"] != cmps:
@@ -61,7 +62,7 @@ def anomalies(case, run):
                         % (pid_ord, len(served), served, rate)))
     flat = [i for served in run["served"] for i in served]
     if sorted(flat) != sorted(ids[:len(cmps)]) and run["outcome"] not in ("stuck",):
-        out.append(("C13", "task-not-served-once", "recordings played by the workers %s, compared %s" % (run["served"], ids[:len(cmps)])))
+        out.append(("C13", known or "task-not-served-once", "recordings played by the workers %s, compared %s" % (run["served"], ids[:len(cmps)])))
     else:
         where = {}
         for w, served in enumerate(run["served"]):
